@@ -393,6 +393,11 @@ def wrap_shapely(method):
 
 def force_2d(geojson: Dict[str, Any]) -> Dict[str, Any]:
     assert "type" in geojson
+    if "geometries" in geojson:  # GeometryCollection
+        return {
+            "type": geojson["type"],
+            "geometries": [force_2d(g) for g in geojson["geometries"]],
+        }
     assert "coordinates" in geojson
 
     def is_scalar(x):
